@@ -31,10 +31,11 @@ type recShape struct {
 	catchRec   bool // the catch body recurses
 	catchFail  bool // the catch body has a fault point of its own (after the recursion)
 	catchVar   bool // {{catch e}} vs {{catch}}
+	loop       int  // the whole program is rendered this many times in one Execute (1, 3 or 1100: counters and limits)
 }
 
 func (s recShape) String() string {
-	return fmt.Sprintf("depth=%d include=%v pre=%v bodyRec=%v bodyRange=%v catchRec=%v catchFail=%v catchVar=%v", s.n, s.viaInclude, s.pre, s.bodyRec, s.bodyRange, s.catchRec, s.catchFail, s.catchVar)
+	return fmt.Sprintf("depth=%d include=%v pre=%v bodyRec=%v bodyRange=%v catchRec=%v catchFail=%v catchVar=%v loop=%d", s.n, s.viaInclude, s.pre, s.bodyRec, s.bodyRange, s.catchRec, s.catchFail, s.catchVar, s.loop)
 }
 
 func (s recShape) source() map[string]string {
@@ -77,12 +78,12 @@ func (s recShape) source() map[string]string {
 	if s.viaInclude {
 		return map[string]string{
 			"/rinc.jet":  b.String(),
-			"/rmain.jet": fmt.Sprintf(`<{{include "/rinc.jet" %d}}>`, s.n),
+			"/rmain.jet": fmt.Sprintf(`<{{range q, qq := ints(0, %d)}}{{include "/rinc.jet" %d}}|{{end}}>`, s.loop, s.n),
 		}
 	}
 	return map[string]string{
 		"/rlib.jet":  "{{block r(d=0)}}" + b.String() + "{{end}}",
-		"/rmain.jet": fmt.Sprintf(`{{import "/rlib.jet"}}<{{yield r(d=%d)}}>`, s.n),
+		"/rmain.jet": fmt.Sprintf(`{{import "/rlib.jet"}}<{{range q, qq := ints(0, %d)}}{{yield r(d=%d)}}|{{end}}>`, s.loop, s.n),
 	}
 }
 
@@ -94,7 +95,7 @@ type recModel struct {
 
 func (m *recModel) failif() (int, bool) {
 	m.calls++
-	return m.calls, m.fail[m.calls]
+	return m.calls, m.fail[(m.calls-1)%40+1] // the failing pattern repeats every 40 calls
 }
 
 func eid(k int) string {
@@ -174,6 +175,7 @@ func runC13Recursive(env *sim.Env) {
 		catchRec:   t.Bool(1, 2),
 		catchFail:  t.Bool(1, 2),
 		catchVar:   t.Choose(4) != 0,
+		loop:       []int{1, 1, 1, 1, 1, 3, 3, 1100}[t.Choose(8)],
 	}
 	if !sh.bodyRec && !sh.catchRec {
 		sh.catchRec = true
@@ -197,11 +199,21 @@ func runC13Recursive(env *sim.Env) {
 		return
 	}
 	m := &recModel{sh: sh, fail: fail}
-	wantOut, wantErr := m.r(sh.n, 0)
-	wantOut = "<" + wantOut
-	if wantErr == 0 {
-		wantOut += ">"
+	var wb strings.Builder
+	wb.WriteString("<")
+	wantErr := 0
+	for q := 0; q < sh.loop && wantErr == 0; q++ {
+		o, e := m.r(sh.n, 0)
+		wb.WriteString(o)
+		wantErr = e
+		if e == 0 {
+			wb.WriteString("|")
+		}
 	}
+	if wantErr == 0 {
+		wb.WriteString(">")
+	}
+	wantOut := wb.String()
 	var firstOut string
 	for round := 0; round < 2; round++ {
 		calls := 0
@@ -210,7 +222,7 @@ func runC13Recursive(env *sim.Env) {
 		vm.Set("dec", func(n int) int { return n - 1 })
 		vm.SetFunc("failif", func(a jet.Arguments) reflect.Value {
 			calls++
-			if fail[calls] {
+			if fail[(calls-1)%40+1] {
 				panic(fmt.Errorf("INJ-%d-", calls))
 			}
 			return reflect.ValueOf("")
@@ -253,6 +265,9 @@ func runC13Recursive(env *sim.Env) {
 	}
 	poolStats(env, pools)
 	env.Stat("probe:re_entrant_try_programs", 1)
+	if sh.loop > 1000 {
+		env.Stat("probe:more_than_1000_try_statements_in_one_execution", 1)
+	}
 	env.Stat("fault:function_panics_with_error", int64(nf))
 	if wantErr != 0 {
 		env.Stat("probe:error_escapes_from_catch_body_of_re_entered_try", 1)
